@@ -254,6 +254,40 @@ func allStrings(alpha []string, maxLen int) []string {
 	return out
 }
 
+
+// FuzzHelpers is the coverage-guided part of the thorough tier (Go native fuzzing, bounded by an
+// execution count). Each input is turned into one Case and judged by exactly the same oracle as
+// the sweep (run); a failure prints the case and the signature for the driver, which files it as
+// an ordinary replayable violation of the str-random monitor.
+func FuzzHelpers(f *testing.F) {
+	fns := []string{"Substr", "SplitAtIndex", "Pad", "Wrap", "Unwrap", "WrapAllRune", "Case", "Words"}
+	f.Add(uint8(0), "abcdef", "'", 2, 3)
+	f.Add(uint8(2), "héllo wörld", "_-", 14, 0)
+	f.Add(uint8(4), "''a''", "''", 0, 0)
+	f.Add(uint8(7), "fooBar baz_qux-HTTPServer", "", 0, 0)
+	f.Add(uint8(6), "İstanbul ǅ ß", "", 0, 0)
+	f.Fuzz(func(t *testing.T, fi uint8, s, tok string, a, b int) {
+		c := Case{Fn: fns[int(fi)%len(fns)], S: hx(s), Tok: hx(tok), A: a, B: b}
+		switch c.Fn {
+		case "Pad":
+			if tok == "" || a > len(s)+100000 { // empty token: not asserted; huge fields: only memory
+				return
+			}
+		case "Words":
+			for i := 0; i < len(s); i++ { // the case styles are asserted on ASCII words joined by ' -_&'
+				ch := s[i]
+				if !(ch >= 'a' && ch <= 'z' || ch >= 'A' && ch <= 'Z' || ch >= '0' && ch <= '9' || strings.IndexByte(" -_&", ch) >= 0) {
+					return
+				}
+			}
+		}
+		w := core.Probe(func(sig, detail string) {
+			t.Fatalf("VERIF-SIG %s\nVERIF-CASE %s\n%s", sig, core.JSON(c), detail)
+		})
+		run(w, c)
+	})
+}
+
 func TestProp(t *testing.T) {
 	r := core.Start(t, "C15")
 	defer r.Finish()
